@@ -389,6 +389,49 @@ def z5_pcm(F, R, M, roles):
                         if d[1] == 'Gt' and c is not None and c >= 2 and truth:
                             good = True
                 R.check(good, 'Z5', 'pcm_xfer:capacity-guard', site(sg, a), 'add only when at least 3 descriptors are free', 'blocking PCM transfer adds without checking that 3 descriptors are free')
+                # Z5 bookkeeping capacity: the local arrays that remember (token, buffer, status) of transfers in flight hold
+                # one entry per outstanding chain; with indirect descriptors a chain occupies a single descriptor, so up to
+                # SIZE - g + 1 chains can be outstanding under the guard `available_desc() >= g`
+                import re as _re
+                qsize = None
+                try:
+                    qsize = int(a.d.get('substs', [None, None])[1])
+                except (TypeError, ValueError, IndexError):
+                    pass
+                gmin = None
+                for swid, vals, succ in gs:
+                    d = S.operand(swid, sg.nodes[swid].d['discr'])
+                    if d[0] == 'bin' and d[1] in ('Ge', 'Gt') and derives_from(d, lambda x: x[0] == 'call' and x[2].endswith('available_desc')):
+                        c = fold_const(d[3])
+                        if c is not None:
+                            gmin = c if d[1] == 'Ge' else c + 1
+                book = {}
+                pops = [n for n in sg.calls(lambda d: roles.get(d.get('fn')) == 'pop_used')]
+                for cn in [a] + pops:
+                    for ai in (1, 2, 3):
+                        if ai >= len(cn.d['args']):
+                            continue
+                        t = S.operand(cn.id, cn.d['args'][ai])
+                        for e in ([t] + (array_elems(S, t) or [])):
+                            for x in deep_subterms(S, e):
+                                if x[0] == 'loc' and x[1][0] == 'local' and x[2] and x[2][0][0] == 'idx':
+                                    lty = sg.ctxs[x[1][1]].fn['locals'][x[1][2]]['ty']
+                                    m = _re.match(r'^\[(.*); (\d+)\]$', lty)
+                                    if m and not _re.match(r'^\[&', lty):
+                                        book[(x[1][1], x[1][2])] = (sg.ctxs[x[1][1]].fn['locals'][x[1][2]].get('name') or '_%d' % x[1][2], int(m.group(2)))
+                R.count('pcm_bookkeeping_arrays', len(book))
+                if qsize is None or gmin is None or not book:
+                    R.abstain('Z5', 'pcm_xfer:bookkeeping-capacity', 'queue size %s / guard %s / arrays %s not identified' % (qsize, gmin, sorted(book.values())), site(sg, a))
+                else:
+                    sf = F.consts.get('device::sound::SUPPORTED_FEATURES', {}).get('bits')
+                    indirect_possible = sf is None or bool(int(sf) & (1 << 28))
+                    per_chain = 1 if indirect_possible else (len(ins or []) + len(outs or []))
+                    need = (qsize - gmin) // per_chain + 1
+                    small = sorted((nm, ln) for nm, ln in book.values() if ln < need)
+                    R.check(not small, 'Z5', 'pcm_xfer:bookkeeping-capacity', site(sg, a),
+                            'in-flight bookkeeping arrays %s hold >= %d entries (queue size %d, add guarded by %d free descriptors)' % (sorted(book.values()), need, qsize, gmin),
+                            'up to %d transfers can be outstanding (queue size %d, one descriptor per transfer when indirect descriptors are negotiated, add guarded by available_desc() >= %d) '
+                            'but the in-flight bookkeeping arrays %s are smaller: entries of transfers still in flight are overwritten, so completions are matched to the wrong buffers' % (need, qsize, gmin, small))
                 # chunking by the configured period
                 ch = [n for n in sg.calls(lambda d: d.get('fn', '').endswith('::chunks'))]
                 okc = False
